@@ -8,5 +8,7 @@ mkdir -p .cache/gen evidence replays
 [ -f harness/Cargo.lock ] || cp /repo/Cargo.lock harness/Cargo.lock
 (cd harness && CARGO_TARGET_DIR=../.cache/target-harness cargo build --release --offline --quiet)
 .cache/target-harness/release/cteverif dump --out .cache/gen >/dev/null 2>&1 && python3 tools/gen_tables.py .cache/gen/tables.json && python3 tools/gen_schema.py .cache/gen/tables.json && python3 tools/gen_stdout_sites.py >/dev/null && python3 tools/gen_lock_sites.py >/dev/null && python3 tools/gen_bdl_types.py >/dev/null
+# the harness once more with the verification hook of /repo on (lock traces for C05)
+(cd harness && RUSTFLAGS="--cfg cteenergymodel_verif" CARGO_TARGET_DIR=../.cache/target-harness-hook cargo build --release --offline --quiet)
 (cd lean && lake build Cte ctedriver)
 echo setup-ok
